@@ -7,7 +7,7 @@
    hist engine, not by a theorem (the stopper finding P4 refutes it for
    arrays/text in general). *)
 From YV Require Proofs.GCWitness.
-From YV Require Import Base.Ticket Base.VV Proto.Server Proofs.FaultProofs.
+From YV Require Import Base.Ticket Base.VV Proto.Server Proto.System Proofs.FaultProofs Proofs.GCSafety.
 From YV Require Import Base.VV Crdt.RGAList Proto.Server Proofs.VVProofs Proofs.RGAProofs Proofs.ProtoProofs.
 
 Theorem C03_purge_view_invariant : forall g p,
@@ -64,3 +64,22 @@ Theorem C03_stale_minimum_refuted :
   p_vv (stale_pull p11_s1 p11_s3 p11_qR) = Some ((p11_R, 2%Z) :: (p11_M, 0%Z) :: nil).
 Proof. exact stale_minimum_outruns_the_pull. Qed.
 Print Assumptions C03_stale_minimum_refuted.
+
+(* the positive counterpart: with requests handled in one piece and clients whose vectors only
+   grow, the vector of a response is safe to collect garbage with.  For every reachable state and
+   every sync: (A) every change of another client that the server has not stored yet was made
+   knowing everything the vector says everybody knows; (B) everything stored has been delivered. *)
+Theorem C03_minimum_vector_is_safe : forall th actors yg es a k g v,
+  dreach th actors yg es ->
+  aget (y_clis (fst yg)) a = Some k -> aget (snd yg) a = Some g -> vle g v -> vv_nonneg v ->
+  exists s2 r,
+    push_pull (y_srv (fst yg)) (mk_request a k MPushPull v) = (s2, r, ENone) /\
+    forall mv, p_vv r = Some mv ->
+      (forall b kb cib row c, b <> a ->
+         aget (y_clis (fst yg)) b = Some kb -> aget (s_clients s2) b = Some cib ->
+         aget (s_vvrows s2) b = Some row ->
+         In c (k_pending kb) -> cd_cseq (ci_doc cib) < h_cseq c -> vle mv (h_vv c)) /\
+      (p_snapshot r = false -> k_snap k = false ->
+         k_recv (apply_resp k r) = not_of a (s_log s2)).
+Proof. exact gc_safe. Qed.
+Print Assumptions C03_minimum_vector_is_safe.
